@@ -113,31 +113,35 @@ example :
 
 /-! ## trash: under-replication -/
 
-/-- If for some class of the loop with desired > 0 the replication of the block, counted over
-distinct physical devices, is below desired, no trash is emitted for the block at all. -/
+/-- If for ANY storage class with desired > 0 — offered by some mount or not — the replication of the
+block, counted over distinct physical devices, is below desired, no trash is emitted for the block
+at all. (For a class that no mount offers the replication is 0, so this always applies: a block
+wanted in such a class is never trashed.) -/
 theorem C05_underreplicated_no_trash (hok : BalancePerm env classes sorter mounts reps)
     (hid : DistinctIds mounts) (hcons : DeviceConsistent mounts)
-    (c : Class) (hc : c ∈ classes) (hd : env.desired c ≠ 0)
+    (c : Class) (hd : env.desired c ≠ 0)
     (hu : physRepl c (balanceBlock env classes sorter mounts reps).heldBefore < env.desired c) :
     ∀ p ∈ (balanceBlock env classes sorter mounts reps).changes, ∀ t, p.2 ≠ .trash t := by
   intro p hp t ht
   have h := mem_changes hp
   have htr := change_trash (h.2 ▸ ht)
   have hur : (balanceBlock env classes sorter mounts reps).final.underrep = true := by
-    apply underrep_of_phys env classes sorter mounts reps hok hid hcons c hc hd
-    have hrel : CoreRel (finalWant (balanceBlock env classes sorter mounts reps).final) (initSlots mounts reps) :=
-      (coreRel_finalWant _).trans (runClasses_coreRel env sorter classes _ hok)
-    have hkc : KeyConsistent c (heldOf (initSlots mounts reps)) := by
-      apply (keyConsistent_of c hid hcons).sub
-      intro m hm
-      obtain ⟨s, hs, e1, _⟩ := mem_heldOf.1 hm
-      rw [← e1]; exact (mem_initSlots hs).1
-    have e : (balanceBlock env classes sorter mounts reps).heldBefore =
-        heldOf (finalWant (balanceBlock env classes sorter mounts reps).final) :=
-      heldBefore_eq env reps _ _ _
-    rw [e] at hu
-    rw [physRepl_congr c _ _ hkc (fun m => (heldOf_coreRel hrel m).symm)]
-    exact hu
+    by_cases hc : c ∈ classes
+    · apply underrep_of_phys env classes sorter mounts reps hok hid hcons c hc hd
+      have hrel : CoreRel (finalWant (balanceBlock env classes sorter mounts reps).final) (initSlots mounts reps) :=
+        (coreRel_finalWant _).trans (runClasses_coreRel env sorter classes _ hok)
+      have hkc : KeyConsistent c (heldOf (initSlots mounts reps)) := by
+        apply (keyConsistent_of c hid hcons).sub
+        intro m hm
+        obtain ⟨s, hs, e1, _⟩ := mem_heldOf.1 hm
+        rw [← e1]; exact (mem_initSlots hs).1
+      have e : (balanceBlock env classes sorter mounts reps).heldBefore =
+          heldOf (finalWant (balanceBlock env classes sorter mounts reps).final) :=
+        heldBefore_eq env reps _ _ _
+      rw [e] at hu
+      rw [physRepl_congr c _ _ hkc (fun m => (heldOf_coreRel hrel m).symm)]
+      exact hu
+    · exact underrep_of_unoffered env classes sorter mounts reps c hc hd
   have hs := h.1
   unfold finalWant at hs
   obtain ⟨s0, _, e⟩ := List.mem_map.1 hs
@@ -152,7 +156,7 @@ theorem C05_underreplicated_no_trash (hok : BalancePerm env classes sorter mount
 /-- non-vacuity: desired 3 with two replicas (one badly placed and old) — nothing is trashed; and
 the F1 layout with desired 3: device 7 is mounted twice but counts once (2 < 3), nothing trashed -/
 example :
-    let env := wEnv (fun c => if c = 0 then 3 else 0)
+    let env := wEnv [(0, 3)]
     BalanceOK env [0] (wSorter env) okMounts [⟨2, 2, 900⟩, ⟨3, 3, 800⟩] ∧ DistinctIds okMounts ∧
     DeviceConsistent okMounts ∧
     physRepl 0 (balanceBlock env [0] (wSorter env) okMounts [⟨2, 2, 900⟩, ⟨3, 3, 800⟩]).heldBefore = 2 ∧
@@ -161,6 +165,11 @@ example :
   refine ⟨?_, by unfold DistinctIds; decide, by unfold DeviceConsistent; decide, by decide, ?_,
     by unfold DeviceConsistent; decide, by decide⟩ <;>
   · unfold BalanceOK; simp only [RunOK]; decide
+
+/-- the F05a layout (two old replicas on `default` mounts, the block wanted only in class 5, which
+no mount offers): nothing is trashed any more -/
+example : f05aEnv.desired 5 = 2 ∧ physRepl 5 f05aResult.heldBefore = 0 ∧
+    f05aResult.changes.map (fun p => (p.1.mnt.id, p.2)) = [(0, .stay), (1, .stay)] := by decide
 
 /-! ## pulls -/
 
@@ -182,97 +191,56 @@ example : ∃ p ∈ okResult.changes, p.2 = .pull (some 1) := by decide
 
 /-! ## lost -/
 
-/-- A block is reported lost exactly when it has no replica anywhere and is referenced (some class
-of the loop has desired > 0) — whatever the mounts are. -/
+/-- A block is reported lost exactly when it has no replica anywhere and is referenced: desired > 0
+for some storage class, offered by a mount or not — whatever the mounts are. -/
 theorem C05_lost_reported :
     (balanceBlock env classes sorter mounts reps).lost = true ↔
-      reps = [] ∧ ∃ c ∈ classes, env.desired c ≠ 0 := by
-  show lostFlag env classes reps (balanceBlock env classes sorter mounts reps).changes = true ↔ _
+      reps = [] ∧ ∃ c, env.desired c ≠ 0 := by
+  show lostFlag env reps (balanceBlock env classes sorter mounts reps).changes = true ↔ _
   unfold lostFlag
-  rw [Bool.or_eq_true, Bool.and_eq_true, classes_any_iff]
+  rw [Bool.or_eq_true, Bool.and_eq_true, wantsSome_iff]
   constructor
-  · rintro (hl | ⟨he, hact⟩)
+  · rintro (hl | ⟨he, c, hd, _⟩)
     · obtain ⟨p, hp, hpl⟩ := List.any_eq_true.1 hl
       have hpl' : p.2 = .lost := by simpa using hpl
       have h := mem_changes hp
       have hch := change_lost.1 (h.2 ▸ hpl')
       refine ⟨hch.2.2, ?_⟩
-      -- some class is active, otherwise nothing is ever wanted
+      -- some class of the loop is active, otherwise nothing is ever wanted
       apply Classical.byContradiction
       intro hno
       have hz : ∀ c ∈ classes, env.desired c = 0 := by
-        intro c hc
+        intro c _
         apply Classical.byContradiction
         intro hne
-        exact hno ⟨c, hc, hne⟩
-      have hfin : (balanceBlock env classes sorter mounts reps).final =
-          { slots := initSlots mounts reps, utd := [], underrep := false } :=
+        exact hno ⟨c, hne⟩
+      have hfin : (balanceBlock env classes sorter mounts reps).final = initState env classes mounts reps :=
         runClasses_all_zero env sorter classes _ hz
       have hs := h.1
       rw [hfin] at hs
       unfold finalWant at hs
       obtain ⟨s0, hs0, e⟩ := List.mem_map.1 hs
+      have hs0' : s0 ∈ initSlots mounts reps := hs0
       have hr0 : s0.repl = none := by rw [← e] at hch; simpa using hch.1
-      have : finalSlot { slots := initSlots mounts reps, utd := [], underrep := false } s0 = s0 := by
+      have : finalSlot (initState env classes mounts reps) s0 = s0 := by
         unfold finalSlot; rw [hr0]
       rw [this] at e
-      have hw0 := (mem_initSlots hs0).2.2
+      have hw0 := (mem_initSlots hs0').2.2
       rw [hr0] at hw0
       rw [← e] at hch
       rw [hw0] at hch
       cases hch.2.1
-    · exact ⟨by simpa using he, hact⟩
-  · rintro ⟨hreps, hact⟩
+    · exact ⟨by simpa using he, c, hd⟩
+  · rintro ⟨hreps, c, hd⟩
     right
-    exact ⟨by rw [hreps]; rfl, hact⟩
+    exact ⟨by rw [hreps]; rfl, c, hd, rfl⟩
 
 /-- the F12 layout (one read-only mount, desired 2, no replica) is now reported; a block that
 nobody references is not -/
 example : f12Result.lost = true ∧
-    (balanceBlock (wEnv (fun _ => 0)) [0] (wSorter (wEnv (fun _ => 0))) f12Mounts []).lost = false := by
-  refine ⟨by decide, by decide⟩
-
-/-! ## classes that no mount offers (finding F05a) -/
-
-/-- The under-replication clause for an ARBITRARY class with desired > 0, also one that is not in
-`bal.classes` because no mount offers it: the block then has replication 0 < desired there. -/
-def C05_any_class_Full : Prop :=
-  ∀ (env : Env) (classes : List Class) (sorter : Class → List Slot → List Slot) (mounts : List Mount)
-    (reps : List Replica),
-    BalanceOK env classes sorter mounts reps → DistinctIds mounts → DeviceConsistent mounts →
-    ∀ c, env.desired c ≠ 0 → physRepl c (balanceBlock env classes sorter mounts reps).heldBefore < env.desired c →
-    ∀ p ∈ (balanceBlock env classes sorter mounts reps).changes, ∀ t, p.2 ≠ .trash t
-
-/-- F05a: desired 2 in class 5, which no mount offers; both replicas (in class 0) are trashed. -/
-theorem C05_any_class_full_fails : ¬ C05_any_class_Full := by
-  intro h
-  have := h f05aEnv [0] (wSorter f05aEnv) f05aMounts f05aReps
-    (by unfold BalanceOK; simp only [RunOK]; decide) (by unfold DistinctIds; decide)
-    (by unfold DeviceConsistent; decide) 5 (by decide) (by decide)
-  have hm : (⟨mkMount 0 0 0 [0], some 900, false⟩, Change.trash 900) ∈ f05aResult.changes := by decide
-  exact this _ hm 900 rfl
-
-/-- the lost clause for a block referenced in ANY class -/
-def C05_lost_any_class_Full : Prop :=
-  ∀ (env : Env) (classes : List Class) (sorter : Class → List Slot → List Slot) (mounts : List Mount),
-    (∃ c, env.desired c ≠ 0) → (balanceBlock env classes sorter mounts []).lost = true
-
-theorem C05_lost_any_class_full_fails : ¬ C05_lost_any_class_Full := by
-  intro h
-  have := h f05aEnv [0] (wSorter f05aEnv) f05aMounts ⟨5, by decide⟩
-  revert this
-  decide
-
-/-- what holds: both clauses for every class of the loop, i.e. every class some mount offers and
-`default` — `C05_underreplicated_no_trash` and `C05_lost_reported` (restated) -/
-theorem C05_any_class_partial (hok : BalancePerm env classes sorter mounts reps)
-    (hid : DistinctIds mounts) (hcons : DeviceConsistent mounts)
-    (c : Class) (hc : c ∈ classes) (hd : env.desired c ≠ 0) :
-    (physRepl c (balanceBlock env classes sorter mounts reps).heldBefore < env.desired c →
-      ∀ p ∈ (balanceBlock env classes sorter mounts reps).changes, ∀ t, p.2 ≠ .trash t) ∧
-    (reps = [] → (balanceBlock env classes sorter mounts reps).lost = true) :=
-  ⟨C05_underreplicated_no_trash env classes sorter mounts reps hok hid hcons c hc hd,
-   fun hr => (C05_lost_reported env classes sorter mounts reps).2 ⟨hr, c, hc, hd⟩⟩
+    (balanceBlock (wEnv []) [0] (wSorter (wEnv [])) f12Mounts []).lost = false ∧
+    (balanceBlock f05aEnv [0] (wSorter f05aEnv) f05aMounts []).lost = true := by
+  refine ⟨by decide, by decide, by decide⟩
 
 /-! ## what is sent to keepstore -/
 
@@ -374,19 +342,23 @@ example :
 /-- `C05_trash_safe`, at full strength: for every layout and every block, carrying out every
 computed trash request while no pull succeeds leaves each class of the loop with desired d > 0 at
 replication ≥ min(d, what it was), counted over distinct physical devices (a trash on any view of a
-device is taken to remove the device's replica). Any number of services, mounts per server and
+device is taken to remove the device's replica) — for every class, offered by some mount or not. Any number of services, mounts per server and
 classes; devices blank, unique or shared; any flags, replication counts and timestamps; every
 behaviour of the unstable sort. -/
 theorem C05_trash_safe (hok : BalancePerm env classes sorter mounts reps)
     (hid : DistinctIds mounts) (hcons : DeviceConsistent mounts)
-    (c : Class) (hc : c ∈ classes) (hd : env.desired c ≠ 0) :
+    (c : Class) (hd : env.desired c ≠ 0) :
     min (env.desired c) (physRepl c (balanceBlock env classes sorter mounts reps).heldBefore) ≤
       physRepl c (balanceBlock env classes sorter mounts reps).heldAfter := by
-  apply trash_safe_of_guar env classes sorter mounts reps hok hid hcons c
-  have hid0 : IdsDistinct (initSlots mounts reps) := by
-    show DistinctIds ((initSlots mounts reps).map (·.mnt))
-    rw [initSlots_mnt]; exact hid
-  exact runClasses_guar env sorter c classes _ hok hid0 hc hd
+  by_cases hc : c ∈ classes
+  · apply trash_safe_of_guar env classes sorter mounts reps hok hid hcons c
+    have hid0 : IdsDistinct (initState env classes mounts reps).slots := by
+      show DistinctIds ((initSlots mounts reps).map (·.mnt))
+      rw [initSlots_mnt]; exact hid
+    exact runClasses_guar env sorter c classes _ hok hid0 hc hd
+  · -- a class that no mount offers: the block counts as under-replicated, nothing is trashed
+    exact trash_safe_of_underrep env classes sorter mounts reps hok hid hcons c
+      (underrep_of_unoffered env classes sorter mounts reps c hc hd)
 
 /-- End to end from the discovered layout (`plan` = cleanupMounts, setupLookupTables,
 balanceBlock), with the hypotheses stated on what the keepstore servers report: the mounts are
@@ -394,19 +366,19 @@ distinct objects and mounts of one device report the same classes and replicatio
 of the block-level theorem are derived (`plan_distinctIds`, `plan_deviceConsistent`). -/
 theorem C05_trash_safe_plan (dflt : Class) (svcs : List RawService) (hok : PlanPerm env dflt sorter svcs reps)
     (hid : RawDistinctIds svcs) (hcons : RawDeviceConsistent svcs)
-    (c : Class) (hc : c ∈ classesOf dflt (cleanupMounts svcs)) (hd : env.desired c ≠ 0) :
+    (c : Class) (hd : env.desired c ≠ 0) :
     min (env.desired c) (physRepl c (plan env dflt sorter svcs reps).heldBefore) ≤
       physRepl c (plan env dflt sorter svcs reps).heldAfter :=
-  C05_trash_safe env _ sorter _ reps hok (plan_distinctIds dflt svcs hid) (plan_deviceConsistent dflt svcs hcons) c hc hd
+  C05_trash_safe env _ sorter _ reps hok (plan_distinctIds dflt svcs hid) (plan_deviceConsistent dflt svcs hcons) c hd
 
 /-- the same for the under-replication clause -/
 theorem C05_underreplicated_no_trash_plan (dflt : Class) (svcs : List RawService)
     (hok : PlanPerm env dflt sorter svcs reps) (hid : RawDistinctIds svcs) (hcons : RawDeviceConsistent svcs)
-    (c : Class) (hc : c ∈ classesOf dflt (cleanupMounts svcs)) (hd : env.desired c ≠ 0)
+    (c : Class) (hd : env.desired c ≠ 0)
     (hu : physRepl c (plan env dflt sorter svcs reps).heldBefore < env.desired c) :
     ∀ p ∈ (plan env dflt sorter svcs reps).changes, ∀ t, p.2 ≠ .trash t :=
   C05_underreplicated_no_trash env _ sorter _ reps hok (plan_distinctIds dflt svcs hid)
-    (plan_deviceConsistent dflt svcs hcons) c hc hd hu
+    (plan_deviceConsistent dflt svcs hcons) c hd hu
 
 example : RawDistinctIds rawLayout ∧ RawDeviceConsistent rawLayout := by
   refine ⟨by unfold RawDistinctIds; decide, by unfold RawDeviceConsistent; decide⟩
@@ -418,12 +390,12 @@ device 8 is trashed, and the surviving device 7 counts for class 0 or not depend
 theorem C05_trash_safe_needs_device_consistency :
     ¬ (∀ (env : Env) (classes : List Class) (sorter : Class → List Slot → List Slot) (mounts : List Mount)
         (reps : List Replica), BalanceOK env classes sorter mounts reps → DistinctIds mounts →
-        ∀ c ∈ classes, env.desired c ≠ 0 →
+        ∀ c, env.desired c ≠ 0 →
           min (env.desired c) (physRepl c (balanceBlock env classes sorter mounts reps).heldBefore) ≤
             physRepl c (balanceBlock env classes sorter mounts reps).heldAfter) := by
   intro h
   have := h ncEnv [0, 1] (wSorter ncEnv) ncMounts ncReps
-    (by unfold BalanceOK; simp only [RunOK]; decide) (by unfold DistinctIds; decide) 0 (by decide) (by decide)
+    (by unfold BalanceOK; simp only [RunOK]; decide) (by unfold DistinctIds; decide) 0 (by decide)
   have e1 : physRepl 0 (balanceBlock ncEnv [0, 1] (wSorter ncEnv) ncMounts ncReps).heldBefore = 1 := by decide
   have e2 : physRepl 0 (balanceBlock ncEnv [0, 1] (wSorter ncEnv) ncMounts ncReps).heldAfter = 0 := by decide
   rw [e1, e2] at this
@@ -452,7 +424,7 @@ example :
 example :
     let ms : List Mount := [mkMount 0 0 7 [0], mkMount 1 0 2 [1], mkMount 2 1 7 [0], mkMount 3 1 4 [0], mkMount 4 2 5 [0]]
     let rs : List Replica := [⟨0, 0, 900⟩, ⟨2, 1, 900⟩, ⟨3, 1, 901⟩, ⟨4, 2, 902⟩, ⟨1, 0, 903⟩]
-    let env := wEnv (fun c => if c = 0 then 2 else 0)
+    let env := wEnv [(0, 2)]
     BalanceOK env [0, 1] (wSorter env) ms rs ∧ DistinctIds ms ∧ DeviceConsistent ms ∧
     physRepl 0 (balanceBlock env [0, 1] (wSorter env) ms rs).heldBefore = 3 ∧
     physRepl 0 (balanceBlock env [0, 1] (wSorter env) ms rs).heldAfter = 2 := by
